@@ -327,6 +327,36 @@ where
                 acc.violate(format!("sel:clamp:{}", tname), format!("clamp on {}: result {:?} is not one of the operands with its own parts (float gives {:e})", tname, g, w), case());
             }
         }
+        {
+            // clamp with the value exactly on a bound: the float evaluation does not clamp (`x < lo` and
+            // `x > hi` are both false), so the result is x itself with its own derivative parts
+            let (lo0, hi0) = if yr <= zr { (yr, zr) } else { (zr, yr) };
+            if lo0 < hi0 {
+                let on_lower = ci % 2 == 0;
+                let mut sx2 = sx.clone();
+                sx2[0] = if on_lower { lo0 } else { hi0 };
+                let xt: T = build_all(&shape, &sx2);
+                let (lo, hi) = if yr <= zr { (y.clone(), z.clone()) } else { (z.clone(), y.clone()) };
+                let g = p(&RealField::clamp(xt.clone(), lo, hi));
+                acc.observe(&format!("sel:clamp-on-{}-bound|{}", if on_lower { "lower" } else { "upper" }, tname), true);
+                if !eqv(&g, &p(&xt)) {
+                    acc.violate(format!("sel:clamp-tie:{}", tname), format!("clamp on {} with the real part exactly on the {} bound: result {:?}, the unclamped operand is {:?}", tname, if on_lower { "lower" } else { "upper" }, g, p(&xt)), case());
+                }
+            }
+            // argument / to_polar / abs / signum style methods at a real part of exactly +0 and -0
+            for z0 in [0.0f64, -0.0] {
+                let mut s0 = sx.clone();
+                s0[0] = z0;
+                let x0: T = build_all(&shape, &s0);
+                let x0f: T::F = f_of::<T>(z0);
+                acc.observe(&format!("argument-at-{}0|{}", if z0.is_sign_negative() { "-" } else { "+" }, tname), true);
+                let (ga, fa) = (p(&ComplexField::argument(x0.clone())), fv(ComplexField::argument(x0f)));
+                let (gp, fp) = (p(&ComplexField::to_polar(x0.clone()).1), fv(ComplexField::to_polar(x0f).1));
+                if ga[0].to_bits() != fa.to_bits() || gp[0].to_bits() != fp.to_bits() || ga[1..].iter().any(|v| *v != 0.0) {
+                    acc.violate(format!("argument-at-zero:{}", tname), format!("argument / to_polar on {} at real part {:?}: {:?} / {:?}, the float gives {:e} / {:e}", tname, z0, ga, gp, fa, fp), json!({"type": tname, "real_part": format!("{:?}", z0)}));
+                }
+            }
+        }
         // ---------------------------------------------------------------- (5) single-lane SIMD view
         {
             acc.observe(&format!("simd|{}|{}", tname, STYLES[style]), true);
